@@ -391,8 +391,13 @@ theorem cmd_class (nS nM : Nat) {ty : Nat} (arg : Nat) (h : ty = mds_SLR ∨ isC
 theorem wencEv_lin (nS nM : Nat) {e e' : Enc} {ev : MEv} (hv : linEv ev = true) (he : encEv nS nM e ev = .ok e')
     {w : W} (hp : e'.out <+: seq) (g : WGood e w) : ∃ w1, Lin seq w w1 ∧ WGood e' w1 := by
   obtain ⟨ty, arg⟩ := ev
-  simp only [linEv, Bool.or_eq_true, Bool.and_eq_true, beq_iff_eq, decide_eq_true_eq, bne_iff_ne] at hv
-  rcases hv with ((⟨⟨hty, h1⟩, h2⟩ | ⟨⟨⟨h1, h2⟩, h3⟩, h4⟩) | hslr) | ⟨hcmd, _⟩
+  simp only [linEv, Bool.or_eq_true, Bool.and_eq_true, beq_iff_eq, decide_eq_true_eq] at hv
+  rcases hv with (((⟨⟨hty, h1⟩, h2⟩ | ⟨⟨⟨h1, h2⟩, h3⟩, h4⟩) | hslr) | hcmd) | ⟨hz, ha⟩
+  rotate_right
+  · subst ha
+    rw [encEv_zero nS nM e hz] at he
+    injection he with he; subst he
+    exact ⟨w, .refl _, g⟩
   · subst hty
     have a1 : arg ≠ 0 := by omega
     obtain ⟨e1, he1⟩ := encRest_ok e arg
@@ -422,7 +427,7 @@ theorem wencAll_lin (nS nM : Nat) : ∀ (es : List MEv), (∀ ev ∈ es, linEv e
     | error x => simp [encAll, h1] at he
     | ok e1 =>
       simp only [encAll, h1] at he
-      obtain ⟨e2, he2, p2, _, _, _⟩ := encAll_lin nS nM es (fun x hx => hv x (by simp [hx])) e1
+      obtain ⟨e2, he2, p2, _, _⟩ := encAll_lin_total nS nM es (fun x hx => hv x (by simp [hx])) e1
       rw [he] at he2; injection he2 with he2; subst he2
       obtain ⟨w1, l1, g1⟩ := wencEv_lin nS nM (hv ev (by simp)) h1 (p2.trans hp) g
       obtain ⟨w2, l2, g2⟩ := wencAll_lin nS nM es (fun x hx => hv x (by simp [hx])) e1 e' he w1 hp g1
@@ -460,7 +465,7 @@ theorem wgood_init : WGood {} ({ pc := 0 } : W) := .inl ⟨by decide, rfl⟩
 theorem walk_accepts_linear (nS nM : Nat) (es : List MEv) (hv : ∀ ev ∈ es, linEv ev = true) (farg : Nat) :
     ∃ bytes, convertTrack nS nM (es ++ [⟨mds_FINISH, farg⟩]) = .ok bytes ∧
       ∀ fuel, fuel ≥ bytes.length → walk bytes 0 fuel { pc := 0 } = .ok bytes.length := by
-  obtain ⟨e1, he1, _, _, _, _⟩ := encAll_lin nS nM es hv {}
+  obtain ⟨e1, he1, _, _, _⟩ := encAll_lin_total nS nM es hv {}
   refine ⟨e1.out ++ [mds_FINISH], ?_, ?_⟩
   · simp [convertTrack, encAll_append, he1, encAll, encEv_finish, Except.map]
   · intro fuel hf
@@ -482,8 +487,8 @@ theorem walk_accepts_segno (nS nM : Nat) (a b : List MEv) (ha : ∀ ev ∈ a, li
     ∃ bytes, convertTrack nS nM (a ++ [⟨mds_SEGNO, 0⟩] ++ b ++ [⟨mds_JUMP, jarg⟩]) = .ok bytes ∧
       (bytes.length < 65536 →
         ∀ fuel, fuel ≥ bytes.length → walk bytes 0 fuel { pc := 0 } = .ok bytes.length) := by
-  obtain ⟨eA, heA, _, _, _, _⟩ := encAll_lin nS nM a ha {}
-  obtain ⟨eB, heB, pB, _, spB, _⟩ := encAll_lin nS nM b hb (afterSegno eA)
+  obtain ⟨eA, heA, _, _, _⟩ := encAll_lin_total nS nM a ha {}
+  obtain ⟨eB, heB, pB, _, spB⟩ := encAll_lin_total nS nM b hb (afterSegno eA)
   obtain ⟨bytes, hbytes⟩ : ∃ l, l = eB.out ++ [mds_JUMP, jumpOff eB / 256, jumpOff eB % 256] := ⟨_, rfl⟩
   refine ⟨bytes, ?_, ?_⟩
   · simp [convertTrack, encAll_append, heA, encAll, encEv_segno, heB, encEv_jump, Except.map, hbytes]
